@@ -204,6 +204,14 @@ class C05(Check):
          "threads": [[["transfer", 0, 1, 5, "ATP"]], [["consume", 0, 6, "ATP", True, 0]]]},
         {"stores": [{"budget": 4, "gtp": 0, "nadh": 2, "max_debt": 9, "rate": 0.5}, {"budget": 5, "gtp": 0, "nadh": 0, "max_debt": 0, "rate": 0.5}],
          "threads": [[["transfer", 0, 1, 3, "ATP"], ["transfer", 0, 1, 1, "NADH"]], [["consume", 0, 5, "ATP", True, 0], ["consume", 0, 3, "NADH", True, 0]]]},
+        # an under-funded spend that may go into debt, racing with income / another spend (each decision of consume must be
+        # taken on the state it acts on)
+        {"stores": [{"budget": 50, "gtp": 0, "nadh": 0, "max_debt": 30, "rate": 0.5}],
+         "threads": [[["consume", 0, 40, "ATP", False, 0], ["consume", 0, 30, "ATP", True, 0]], [["regen", 0, 40, "ATP"]]]},
+        {"stores": [{"budget": 100, "gtp": 0, "nadh": 0, "max_debt": 50, "rate": 0.5}],
+         "threads": [[["consume", 0, 80, "ATP", False, 0], ["consume", 0, 30, "ATP", True, 10]], [["consume", 0, 12, "ATP", False, 0]]]},
+        {"stores": [{"budget": 10, "gtp": 0, "nadh": 6, "max_debt": 8, "rate": 0.5}],
+         "threads": [[["consume", 0, 20, "ATP", True, 0]], [["regen", 0, 9, "ATP"], ["consume", 0, 4, "NADH", False, 0]]]},
         # reset while spends are queued behind it and arrive after it
         {"stores": [{"budget": 10, "gtp": 0, "nadh": 0, "max_debt": 0, "rate": 0.5}],
          "threads": [[["reset", 0]], [["consume", 0, 6, "ATP", False, 0]], [["consume", 0, 6, "ATP", False, 0]]]},
